@@ -479,7 +479,8 @@ impl CommandBuilder<'_> {
         }
 
         if self.options.verbose {
-            eprintln!("{command:?}");
+            // (a diagnostic that cannot be written must not change what is run)
+            let _ = writeln!(io::stderr(), "{command:?}");
         }
 
         #[cfg(uutils_findutils_verif)]
@@ -940,7 +941,8 @@ fn batch_mode(matches: &clap::ArgMatches) -> (Option<usize>, Option<usize>, Opti
         }
     }
     if conflict {
-        eprintln!(
+        let _ = writeln!(
+            io::stderr(),
             "WARNING: -L, -n and -I/-i are mutually exclusive, but more than one were given; \
             only the last option will be used"
         );
@@ -1195,7 +1197,8 @@ pub fn xargs_main(args: &[&str]) -> i32 {
         Ok(CommandResult::Success) => 0,
         Ok(CommandResult::Failure) => 123,
         Err(e) => {
-            eprintln!("Error: {e}");
+            // The exit status does not depend on the diagnostic getting through.
+            let _ = writeln!(io::stderr(), "Error: {e}");
             if let XargsError::CommandExecution(cx) = e {
                 match cx {
                     CommandExecutionError::UrgentlyFailed => 124,
